@@ -49,6 +49,10 @@ def array_len_of_iter(fn, header_blocks):
                 m = re.search(r"\[[^;\]]+; (\d+)\]", aty)
                 if m:
                     return int(m.group(1))
+                # a slice that is an unsized array (`&[u8; 3] as &[u8]`, a byte-string literal handed to a `&[u8]` parameter)
+                n = _unsized_array_len(fn, rc.args[0]) if rc.args else None
+                if n is not None:
+                    return n
     return None
 
 
@@ -109,6 +113,7 @@ def weight_range(fn, weight, loop_bound=None):
             k = (loop_bound or (lambda f, h, body: array_len_of_iter(f, body)))(fn, b, loops[b])
             if k is None:
                 raise Unbounded("loop at bb%d has no type-known bound" % b)
+            klo, khi = k if isinstance(k, tuple) else (k, k)
             it = body_range(b)
             # exits of the loop: successors of body blocks outside the body
             exits = {s for x in loops[b] for s, _ in fn.succ(x) if s not in loops[b]}
@@ -118,7 +123,7 @@ def weight_range(fn, weight, loop_bound=None):
                 memo[b] = None
                 return None
             # the header's own weight counts k+1 times (the final failing test); headers carry no writes in practice
-            r = (k * it[0] + min(x[0] for x in rs), k * it[1] + max(x[1] for x in rs))
+            r = (klo * it[0] + min(x[0] for x in rs), khi * it[1] + max(x[1] for x in rs))
             memo[b] = r
             return r
         if t["k"] == "return":
@@ -141,3 +146,154 @@ def weight_range(fn, weight, loop_bound=None):
     if r is None:
         raise Unbounded("no path reaches a return")
     return r
+
+
+def _counter_of(fn, op):
+    """the local a comparison operand stands for, through copies and integer casts"""
+    for _ in range(6):
+        if op[0] not in ("c", "m") or op[1][1]:
+            return None
+        l = op[1][0]
+        sd = fn.single_def(l)
+        if sd is None:
+            return l
+        if sd[2] != "assign":
+            return l
+        r = sd[3]["r"]
+        if r[0] == "use" and r[1][0] in ("c", "m"):
+            op = r[1]
+            continue
+        if r[0] == "cast" and isinstance(r[2], list) and r[2][0] in ("c", "m"):
+            op = r[2]
+            continue
+        return l
+    return None
+
+
+def _const_of(fn, op):
+    from . import guards
+    if op[0] == "k":
+        return guards.const_int(op[1])
+    st = fn.origin(op)
+    if st and st[-1][0] == "const":
+        return guards.const_int(st[-1][1])
+    return None
+
+
+def _step_defs(fn, c, body):
+    """definitions of local c inside `body`: [(bb, 'inc'|'dec'|'other')] (c = (c +/- 1).0)"""
+    out = []
+    for (dbb, si, dk, payload) in fn.defs().get(c, []):
+        if dbb not in body or fn.is_cleanup(dbb):
+            continue
+        kind = "other"
+        if dk == "assign" and not payload["p"][1] and payload["r"][0] == "use" and payload["r"][1][0] in ("c", "m"):
+            src = payload["r"][1][1]
+            sd = fn.single_def(src[0])
+            if sd is not None and sd[2] == "assign" and sd[3]["r"][0] == "bin":
+                b = sd[3]["r"]
+                if _counter_of(fn, b[2]) == c and _const_of(fn, b[3]) == 1:
+                    kind = "inc" if b[1].startswith("Add") else "dec" if b[1].startswith("Sub") else "other"
+        out.append((dbb, kind))
+    return out
+
+
+def _exit_tests(fn, body):
+    """(block, op, counter local, constant, label that stays in the loop) for the switches that can leave the loop"""
+    out = []
+    for x in sorted(body):
+        t = fn.term(x)
+        if t["k"] != "switch" or t.get("dty") != "bool":
+            continue
+        stays = [lab for s, lab in fn.succ(x) if s in body]
+        leaves = [lab for s, lab in fn.succ(x) if s not in body]
+        if not leaves or not stays:
+            continue
+        st = fn.origin(t["discr"])
+        if not (st and st[-1][0] == "bin"):
+            continue
+        b = st[-1][1]
+        c, k = _counter_of(fn, b[2]), _const_of(fn, b[3])
+        if c is not None and k is not None:
+            out.append((x, b[1], c, k, stays[0]))
+    return out
+
+
+def counter_loop_bound(fn, h, body, _depth=2):
+    """(0, K) for a loop driven by a counter: `while c >= 1 { ..; c -= 1 }` runs at most (value of c at entry) times, and
+    `while c < M && .. { c += 1 }` at most M times (c unsigned, counted up from a non-negative start). The value at entry
+    of a counting-down loop is bounded by the constants c is initialised with and by the M of the counting-up loops that
+    increment it. -> None when the loop is not of this shape."""
+    loops = natural_loops(fn)
+    for x, op, c, k, stay in _exit_tests(fn, body):
+        steps = _step_defs(fn, c, body)
+        if len(steps) != 1:
+            continue
+        kind = steps[0][1]
+        stays_true = stay != 0
+        if kind == "dec" and ((op == "Ge" and k >= 1 and stays_true) or (op == "Gt" and k >= 0 and stays_true) or (op == "Ne" and k == 0 and stays_true)):
+            # value of c when the loop is entered
+            ub = 0
+            okb = True
+            for (dbb, si, dk, payload) in fn.defs().get(c, []):
+                if dbb in body or fn.is_cleanup(dbb):
+                    continue
+                if dk == "assign" and payload["r"][0] == "use" and payload["r"][1][0] == "k":
+                    v = _const_of(fn, payload["r"][1])
+                    if v is None or v < 0:
+                        okb = False
+                    else:
+                        ub = max(ub, v)
+                    continue
+                inner = [hh for hh, bb in loops.items() if dbb in bb and hh != h]
+                got = None
+                for hh in inner:
+                    for x2, op2, c2, k2, stay2 in _exit_tests(fn, loops[hh]):
+                        st2 = _step_defs(fn, c, loops[hh])
+                        if c2 == c and op2 == "Lt" and stay2 != 0 and len(st2) == 1 and st2[0][1] == "inc" and fn.dominates(x2, st2[0][0]):
+                            got = k2
+                if got is None:
+                    okb = False
+                else:
+                    ub = max(ub, got)
+            if okb:
+                return (0, ub)
+        if kind == "inc" and op == "Lt" and stays_true and fn.dominates(x, steps[0][0]):
+            return (0, k)
+    return None
+
+
+def _unsized_array_len(fn, op, depth=10):
+    """length of the array behind a slice operand, when every step back from it is a copy or an Unsize coercion"""
+    for _ in range(depth):
+        if op[0] == "k":
+            m = re.search(r"\[[^;\]]+; (\d+)\]", op[1].get("ty") or "")
+            return int(m.group(1)) if m else None
+        if op[0] not in ("c", "m"):
+            return None
+        pl = op[1]
+        ty = fn.place_ty(pl)
+        m = re.search(r"^&(?:'\w+ )?(?:mut )?\[[^;\]]+; (\d+)\]$", (ty or "").strip())
+        if m:
+            return int(m.group(1))
+        if pl[1]:
+            # `*x` of a reference to a reference to an array
+            if pl[1] == [["d"]]:
+                inner = fn.place_ty([pl[0], []]) or ""
+                m = re.search(r"\[[^;\]]+; (\d+)\]", inner)
+                if m and "&" in inner:
+                    return int(m.group(1))
+            return None
+        sd = fn.single_def(pl[0])
+        if sd is None or sd[2] != "assign":
+            return None
+        r = sd[3]["r"]
+        if r[0] == "use":
+            op = r[1]
+        elif r[0] == "cast" and isinstance(r[2], list):
+            op = r[2]
+        elif r[0] == "ref" and r[2][1] and r[2][1][-1] == ["d"]:
+            op = ["c", [r[2][0], r[2][1][:-1]]]
+        else:
+            return None
+    return None
